@@ -246,6 +246,24 @@ def r2_who(ctx):
         r.inst("template branch", "guarded by cfg!(all(dynamic_load, ssr))")
     else:
         r.viol("R2:template#branch", "the registering accessor is not limited to dynamic_load+ssr", file=fn.file, line=fn.line)
+    # the per-locale table accessors the generated code reads through are pure forwarders to their own unit's get_translations():
+    # anything else in them (a process-wide cache, a call to another unit's get_translations) registers too little or too much
+    fn_gen = ctx.ast.fn(ML, "create_locale_type_inner")
+    accs = []
+    for q in xquotes(fn_gen.body, also_plain=False) if fn_gen else []:
+        tt = flat(tok_text(q["tokens"]))
+        m_ = re.match(r"^pub(?:const|async)?fn#accessor_ident\(\)->&'static\[(?:&'staticstr|Box<str>);#strings_count\]\{(.*)\}$", tt)
+        if m_:
+            accs.append(m_.group(1))
+    allowed = {"#string_holder::get_translations()", "#string_holder::get_translations().await", "super::super::#parent::#accessor_ident()", "super::super::#parent::#accessor_ident().await"}
+    odd = [a for a in accs if a not in allowed]
+    if len(accs) < 4:
+        r.viol("R2:template#accessors", "only %d table accessor templates were found in create_locale_type_inner (6 on the pinned tree)" % len(accs), file=ML)
+    elif odd:
+        r.viol("R2:template#accessor-body", "a generated table accessor does more than forward to its own unit's get_translations(): `%s` - a cache makes the unit register once per process, a call to "
+               "another unit registers units the request did not use" % odd[0][:200], file=ML, line=fn_gen.line)
+    else:
+        r.inst("generated table accessors", "%d templates: each only forwards to its own unit's get_translations() (or to the parent group's accessor)" % len(accs))
     fn = ctx.ast.fn("leptos_i18n/src/context.rs", "embed_translations_fn")
     t = flatp(show(fn.body)) if fn else ""
     if has(t, "lettranslations=reg_ctx.to_array;view!<scriptinner_html=translations/>"):
@@ -284,6 +302,14 @@ def r3_always(ctx):
             r.inst("embed_translations_fn", "one path: <script inner_html = reg_ctx.to_array()>, whatever was registered")
         else:
             r.viol("R3:embed_translations_fn#unconditional", "the script is not emitted on every path with the registry's array as its content (%s path(s))" % (len(ps) if ps is not None else "?"), file=b.file, line=b.line)
+    # one registry and one script per rendered provider: only the context provider creates the registry and embeds it (a nested
+    # provider with its own registry emits a second assignment to the same global, and the later script wins)
+    for rx, what in ((r"register::RegisterCtx::<L>::provide_context$", "creates a registry"), (r"context::embed_translations_fn$", "embeds the script")):
+        who = sorted({M.owner_of(prog, bb.name).split("leptos_i18n::")[-1] for (bb, _i, _t) in prog.callers_of(rx)})
+        if who == ["context::provide_i18n_context_component_inner"]:
+            r.inst("who " + what, "provide_i18n_context_component_inner only")
+        else:
+            r.viol("R3:who#%s" % what.replace(" ", "-"), "%s: %s (expected only the context provider): the page would carry more than one `window.__LEPTOS_I18N_TRANSLATIONS = ..` and lose the units of all but the last" % (what, who), file="leptos_i18n/src/context.rs")
     b = prog.body("leptos_i18n::context::provide_i18n_context_component_inner")
     if b is None:
         r.missing("provide_i18n_context_component_inner")
